@@ -119,6 +119,7 @@ def replay_with_confirmation(ctx, test, files, header, walks, tag):
                 w = by_i[b["i"]]
                 b["walk"] = dict(w, steps=w["steps"][:b["s"] + 1])
                 b["header"] = header
+                b["seed"] = ctx.seed     # the concrete choices (spelling, operations) are seeded
                 confirmed.append(b)
         stats["flaky"] = len({(b["i"], b["s"], b["q"]) for b in bad if b["i"] in ids} - again)
     total = sum(len(w["steps"]) for w in walks)
@@ -131,6 +132,7 @@ def replay_with_confirmation(ctx, test, files, header, walks, tag):
 
 def replay_stored_walk(ctx, test, files, rec, tag):
     """--replay of a direction-A record: walk the stored history again."""
+    ctx.seed = int(rec.get("seed", ctx.seed))
     w = dict(rec["walk"], i=rec["i"])
     confirmed, st = replay_with_confirmation(ctx, test, files, rec["header"], [w], tag)
     hits = [b for b in confirmed if (b["s"], b["q"]) == (rec["s"], rec["q"])]
